@@ -658,6 +658,7 @@ fn random_case(case_seed: u64) -> Option<Case> {
         spare_vehicle: rng.chance(0.8),
         candidates: rng.range_usize(2, 5),
         multi_share: 0.3,
+        triple_share: 0.,
         layers,
         priced: true,
         p_limits: 0.,
